@@ -261,7 +261,11 @@ func (e *Engine) merge(fr *Frame, b *ssa.BasicBlock, ins []edgeIn) *State {
 			st.cells[a] = c0
 			continue
 		}
-		nv := e.freshLike(c0.V, "phi."+c0.Name)
+		var cands []Val
+		for _, in := range ins {
+			cands = append(cands, in.st.cells[a].V)
+		}
+		nv := e.freshLike(pickRep(cands), "phi."+c0.Name)
 		for _, in := range ins {
 			e.assume(Implies(in.st.guard, e.valEq(nv, in.st.cells[a].V)))
 		}
@@ -349,7 +353,7 @@ func (e *Engine) merge(fr *Frame, b *ssa.BasicBlock, ins []edgeIn) *State {
 		if len(vals) == 0 {
 			continue
 		}
-		nv := e.freshLike(vals[0], "phi")
+		nv := e.freshLike(pickRep(vals), "phi")
 		for i := range vals {
 			e.assume(Implies(guards[i], e.valEq(nv, vals[i])))
 		}
@@ -487,7 +491,34 @@ func staticShape(v Val) string {
 	return "."
 }
 
+// adoptNilShape: a nil pointer literal takes the static shape of the pointer it is merged/compared with.
+func adoptNilShape(a, b Val) (Val, Val) {
+	pa, oka := a.(PtrV)
+	pb, okb := b.(PtrV)
+	if !oka || !okb || pa.Local != nil || pb.Local != nil {
+		return a, b
+	}
+	if staticShape(pa) == staticShape(pb) {
+		return a, b
+	}
+	if pa.Rid.S == "0" {
+		n := pb
+		n.Rid, n.Idx, n.NonNil = pa.Rid, pa.Idx, false
+		if len(pb.ArrIdx) > 0 {
+			n.ArrIdx = []Term{pb.ArrIdx[0]}
+		}
+		return n, b
+	}
+	if pb.Rid.S == "0" {
+		n := pa
+		n.Rid, n.Idx, n.NonNil = pb.Rid, pb.Idx, false
+		return a, n
+	}
+	return a, b
+}
+
 func (e *Engine) valEq(a, b Val) Term {
+	a, b = adoptNilShape(a, b)
 	if staticShape(a) != staticShape(b) {
 		unsupp("values of different static shape compared/merged: %s vs %s (%s)", staticShape(a), staticShape(b), a.GoType())
 	}
@@ -908,6 +939,7 @@ func mapVal2(a, b Val, f func(x, y Term) Term) Val {
 func (e *Engine) iteVals(guards []Term, vals []Val) Val {
 	res := vals[len(vals)-1]
 	for i := len(vals) - 2; i >= 0; i-- {
+		vals[i], res = adoptNilShape(vals[i], res)
 		if staticShape(vals[i]) != staticShape(res) {
 			unsupp("merge of values with different static shape")
 		}
@@ -989,4 +1021,19 @@ func loopRangeIndex(l *Loop) *ssa.Alloc {
 		}
 	}
 	return nil
+}
+
+// pickRep chooses the value whose static shape the merged value takes: a non-nil-literal pointer if there is one.
+func pickRep(vals []Val) Val {
+	for _, v := range vals {
+		if p, ok := v.(PtrV); ok && p.Local == nil && p.Rid.S != "0" {
+			p.NonNil = false
+			return p
+		}
+	}
+	if p, ok := vals[0].(PtrV); ok {
+		p.NonNil = false
+		return p
+	}
+	return vals[0]
 }
